@@ -88,9 +88,10 @@ def Expr.loc : Expr → Loc
   | .lparamArr l | .lphys l _ | .lvirt l _ _ | .builtin l _ | .bin l _ _ _ | .choice l _ _ _
   | .fn l _ _ => l
 
-/-- `which_expression == "field_reference"`. -/
+/-- `_kind_check_field_reference`: a `field_reference` whose referent is a `Field` — a runtime
+parameter is referred to in the same way but is not a field. -/
 def Expr.isFieldRef : Expr → Bool
-  | .lparam .. | .lparamArr .. | .lphys .. | .lvirt .. => true
+  | .lphys .. | .lvirt .. => true
   | _ => false
 
 /-- Error classes (one per message template of the modelled code). -/
@@ -479,16 +480,13 @@ def attrAll : List Attr → PassRes
   | [] => ⟨[], none⟩
   | a :: as => (attrOne a).app (attrAll as)
 
-/-- After the validators: `_add_missing_width_and_sign_attributes_on_enum` recognises only a
-*literal* `true`/`false` as "is_signed present", appends a second `is_signed`, and the next
-`ir_util.get_attribute` trips its duplicate assertion (open finding). -/
+/-- After the validators: nothing raises any more (`ir_util.get_boolean_attribute` reads the
+value of any constant boolean expression, so `[is_signed: 1 == 1]` is "is_signed present" and no
+second `is_signed` is appended).  Kept as the place where the late attribute passes would be
+modelled; `Crash.attrSignedNotLiteral` is no longer produced. -/
 def attrLate : List Attr → Option Crash
   | [] => none
-  | a :: as =>
-    match a.isSigned, a.val with
-    | true, .expr (.boolc _) => attrLate as
-    | true, .expr _ => some .attrSignedNotLiteral
-    | _, _ => attrLate as
+  | _ :: as => attrLate as
 
 inductive Outcome
   | accepted
